@@ -377,6 +377,27 @@ func (r *simRun) byzBlockResult(j int) error {
 		return nil
 	}
 	h := blk.Height()
+	// prefer a receiver that is at the block's height, or (one time in three) one height below it: the
+	// engine then keeps the result and processes it when it enters that height
+	var at, below []int
+	for _, k := range r.liveCorrect() {
+		switch s.nodes[k].state().Height {
+		case h:
+			at = append(at, k)
+		case h - 1:
+			below = append(below, k)
+		}
+	}
+	if len(below) > 0 && (len(at) == 0 || rapid.IntRange(0, 2).Draw(rt, "prefetch") == 0) {
+		j = r.pickNode("behind", below)
+		r.counts["byzBlockResult.forNextHeight"]++
+	} else if len(at) > 0 && rapid.IntRange(0, 3).Draw(rt, "atHeight") != 0 {
+		j = r.pickNode("atHeight", at)
+	}
+	n = s.nodes[j]
+	if e2, ok := n.cs.(recv); ok {
+		eng = e2
+	}
 	bid := fmt.Sprintf("%x", blk.ID())
 	kind := rapid.SampledFrom([]string{"allOfARound", "allOfARound", "belowThreshold", "repeatedSigner", "mixedRounds", "otherBlock"}).Draw(rt, "certificate")
 	src := bid
@@ -1076,7 +1097,7 @@ func (r *simRun) step() (bool, error) {
 		acts = append(acts, act{"splitLock", 2})
 	}
 	if s.f > 0 && len(live) > 0 && len(r.byzParts) > 0 {
-		w := 2
+		w := 4
 		if r.mode == "C02" {
 			w = 1 // keep the crash/restart density of the C02 walk
 		}
@@ -1294,6 +1315,15 @@ func simRunCase(rt *rapid.T, mode string, profile string, rec *ev.Rec) {
 	if runErr == nil && strings.HasSuffix(opening, "oldPolka") {
 		runErr = r.oldPolka()
 	}
+	// after the opening script: the adversary also acts as fast-sync peer of the nodes that lag behind
+	if runErr == nil && s.f > 0 && opening != "none" && mode == "C01" {
+		for k, n := 0, rapid.IntRange(0, 2).Draw(rt, "blockResultsAfterScript"); k < n && runErr == nil; k++ {
+			r.learnCorrectParts()
+			if live := r.liveCorrect(); len(live) > 0 && len(r.byzParts) > 0 {
+				runErr = r.byzBlockResult(r.pickNode("to", live))
+			}
+		}
+	}
 	for runErr == nil && steps < maxSteps {
 		ev.Journal(head + "\n" + strings.Join(s.history, "\n"))
 		more, err := r.step()
@@ -1393,6 +1423,9 @@ func simRunCase(rt *rapid.T, mode string, profile string, rec *ev.Rec) {
 	}
 	if r.counts["byzBlockResult.rejected"] > 0 {
 		labels = append(labels, "fastSyncBlockRejected")
+	}
+	if r.counts["byzBlockResult.forNextHeight"] > 0 {
+		labels = append(labels, "fastSyncBlockForNextHeight")
 	}
 	if r.counts["byzBlockResult.consumedAtCurrentHeight"] > 0 {
 		labels = append(labels, "fastSyncBlockAccepted")
